@@ -11,48 +11,95 @@
 (*                    names written by an earlier statement     (C01, C12) *)
 (*   unpack-slot      x = states[i] / parameters[i] / missing_variables[i] *)
 (*                    uses the slot the index map gives x        (C04, C13)*)
-(*   store-slot       values[i] receives the derivative (rhs, schemes: of  *)
-(*                    the state that owns slot i; schemes also read that   *)
-(*                    state), the monitored name with monitor index i, or  *)
-(*                    the requested missing value with slot i (C04,C05,C13)*)
+(*   store-slot       slot i of the output receives the derivative (rhs,   *)
+(*                    schemes: of the state that owns slot i; schemes also *)
+(*                    read that state), the monitored name with monitor    *)
+(*                    index i, or the requested missing value with slot i  *)
+(*                    (C04, C05, C13).  The output is whatever the function*)
+(*                    returns: one array written slot by slot, or a list   *)
+(*                    of names - position i of the list is slot i, so the  *)
+(*                    order of a functional (JAX) return is covered by the *)
+(*                    same rule (C03)                                       *)
 (*   store-twice      no slot is written twice                       (C04) *)
-(*   redefinition     no name is bound twice and no formal or template     *)
-(*                    local is rebound by a model name          (C19, C02) *)
-(*   scheme-guard     the exponential update is selected by |linearisation| >  *)
-(*                    delta (the delta passed), strictly; else Euler        *)
+(*   redefinition     no model name, formal or linearisation is bound twice*)
+(*                    (a model name rebound by a helper of the generated   *)
+(*                    code is a capture: C19, C02)                         *)
 (*   scheme-choice    a Rush-Larsen scheme uses the exponential update for  *)
 (*                    exactly the requested stiff states whose rate depends *)
 (*                    on themselves                                  (C07) *)
-(*   layout-from-sort the index maps are the ones the recorded sort of the  *)
-(*                    complete graph determines                 (C04, C12) *)
-(*   return-order     a functional (JAX) return lists _values_0.._values_n-1 *)
-(*                    in slot order                              (C03, C13) *)
+(*   scheme-guard     where the exponential update is used it is selected  *)
+(*                    by |linearisation| > delta (the delta passed),        *)
+(*                    strictly; otherwise the Euler update      (C06, C07) *)
 (*   lengths          at return the written slots are exactly 0..n-1 and   *)
 (*                    the declared number of returned entries is n   (C03) *)
+(*                                                                         *)
+(* Only what the properties fix is demanded.  How the generated code is    *)
+(* SPELLED is left open: helper locals are followed (env: the closure of   *)
+(* what a helper reads, which numbers and comparisons it contains, what it *)
+(* calls), no name of a local of the generated code is assumed, and a      *)
+(* function the skeleton cannot account for - a statement form it does not *)
+(* know, a rate inlined into its store - is UNINTERPRETABLE: nothing is    *)
+(* claimed about it (the numeric replay, leg L2, still decides), it is     *)
+(* reported as a note.  `layout-from-sort` (the index maps are the ones    *)
+(* the recorded sort of the complete graph determines) is such a note too: *)
+(* it documents the layout policy of this implementation, which no         *)
+(* property fixes.                                                         *)
+(*                                                                         *)
 (* A failing rule does not stop the trace: it is recorded and the rest of  *)
 (* the trace is still checked.  The verdict is total: one JSON line per    *)
-(* trace with the list of (line, rule) failures.                           *)
+(* trace with the list of (line, rule) failures and notes.                 *)
 (***************************************************************************)
 EXTENDS Integers, Sequences, FiniteSets, TLC, Json, IOUtils
 
 Traces == ndJsonDeserialize(IOEnv.TRACE_FILE)
 
-VARIABLES tid, l, defined, stored, fails
-vars == <<tid, l, defined, stored, fails>>
+VARIABLES tid, l, defined, stored, fails, notes, env
+vars == <<tid, l, defined, stored, fails, notes, env>>
 
 ToSet(s) == {s[i] : i \in 1..Len(s)}
 T == Traces[tid]
 Ev == T.stmts[l]
 Has(f, k) == k \in DOMAIN f
 
+NoEnv == [n \in {} |-> [uses |-> {}, consts |-> {}, ops |-> {}, calls |-> {}]]
+
 Init == /\ tid \in 1..Len(Traces)
         /\ l = 1
         /\ defined = ToSet(Traces[tid].formals)
         /\ stored = <<>>
         /\ fails = <<>>
+        /\ notes = <<>>
+        /\ env = NoEnv
 
-Binds(ev) == IF ev.k \in {"unpackS", "unpackP", "unpackM", "def", "alloc"} THEN {ev.name} ELSE {}
-Reads(ev) == IF ev.k \in {"def", "alloc", "store", "return", "other"} THEN ToSet(ev.uses) ELSE {}
+\* ---- names ------------------------------------------------------------------------------------
+LinNames == {T.lin[k] : k \in DOMAIN T.lin}
+ModelNames == DOMAIN T.state_index \cup DOMAIN T.parameter_index \cup DOMAIN T.missing_index
+              \cup DOMAIN T.derivs \cup ToSet(T.assignments) \cup ToSet(T.full_order)
+Protected == ModelNames \cup LinNames \cup ToSet(T.formals)
+IsHelper(n) == n \notin Protected
+
+\* ---- helpers of the generated code are followed ------------------------------------------------
+ClU(S) == S \cup UNION {env[u].uses : u \in S \cap DOMAIN env}
+ClC(S, C) == C \cup UNION {env[u].consts : u \in S \cap DOMAIN env}
+ClO(S, O) == O \cup UNION {env[u].ops : u \in S \cap DOMAIN env}
+ClF(S, F) == F \cup UNION {env[u].calls : u \in S \cap DOMAIN env}
+
+HasFacts(ev) == ev.k \in {"def", "alloc", "store"}
+UsesStar(ev) == ClU(ToSet(ev.uses))
+CallsStar(ev) == ClF(ToSet(ev.uses), ToSet(ev.calls))
+
+Binds(ev) == IF ev.k \in {"unpackS", "unpackP", "unpackM", "def", "alloc"} THEN {ev.name}
+             ELSE IF ev.k = "store" /\ Has(ev, "name") THEN {ev.name} ELSE {}
+Reads(ev) == IF ev.k \in {"def", "alloc", "store"} THEN ToSet(ev.uses)
+             ELSE IF ev.k = "return" THEN ToSet(ev.uses) \cup ToSet(ev.rets) ELSE {}
+
+\* ---- interpretability of the whole function -----------------------------------------------------
+Whole(t) ==
+     (IF \E i \in 1..Len(t.stmts) : t.stmts[i].k = "other" THEN {"statement-form"} ELSE {})
+  \cup (IF \E i \in 1..Len(t.stmts) : t.stmts[i].k = "store" /\ t.stmts[i].slot < 0 THEN {"computed-slot"} ELSE {})
+  \cup (IF \E i \in 1..Len(t.stmts) : t.stmts[i].k = "return" /\ ~t.stmts[i].rets_ok THEN {"returned-expression"} ELSE {})
+  \cup (IF t.expect_n > 0 /\ ~\E i \in 1..Len(t.stmts) : t.stmts[i].k = "store" THEN {"no-store-seen"} ELSE {})
+Interpretable == Whole(T) = {}
 
 UnpackOk(ev) ==
   CASE ev.k = "unpackS" -> Has(T.state_index, ev.name) /\ T.state_index[ev.name] = ev.slot
@@ -60,22 +107,29 @@ UnpackOk(ev) ==
     [] ev.k = "unpackM" -> Has(T.missing_index, ev.name) /\ T.missing_index[ev.name] = ev.slot
     [] OTHER -> TRUE
 
+\* ---- which quantity does a store carry? ---------------------------------------------------------
+\* rhs / scheme: the derivative names the stored expression reads (helpers followed); a verdict needs exactly one
+DerivsOf(ev) == UsesStar(ev) \cap DOMAIN T.derivs
+Carried(ev) == CHOOSE d \in DerivsOf(ev) : TRUE
+StoreJudged(ev) ==
+  CASE T.kind \in {"rhs", "scheme"} -> Cardinality(DerivsOf(ev)) = 1
+    [] T.kind = "monitor" -> DOMAIN T.monitor_index # {} /\ Cardinality(UsesStar(ev)) = 1
+    [] T.kind = "missing" -> Cardinality(UsesStar(ev)) = 1
+    [] OTHER -> FALSE
 StoreOk(ev) ==
   CASE T.kind = "rhs" ->
-         \E d \in ToSet(ev.uses) : Has(T.derivs, d) /\ Has(T.state_index, T.derivs[d]) /\ T.state_index[T.derivs[d]] = ev.slot
+         LET d == Carried(ev) IN Has(T.state_index, T.derivs[d]) /\ T.state_index[T.derivs[d]] = ev.slot
     [] T.kind = "scheme" ->
-         \E d \in ToSet(ev.uses) : /\ Has(T.derivs, d) /\ Has(T.state_index, T.derivs[d])
-                                   /\ T.state_index[T.derivs[d]] = ev.slot
-                                   /\ T.derivs[d] \in ToSet(ev.uses)
+         LET d == Carried(ev) IN /\ Has(T.state_index, T.derivs[d]) /\ T.state_index[T.derivs[d]] = ev.slot
+                                 /\ T.derivs[d] \in UsesStar(ev)
     [] T.kind = "monitor" ->
-         (DOMAIN T.monitor_index = {}) \/ \E n \in ToSet(ev.uses) : Has(T.monitor_index, n) /\ T.monitor_index[n] = ev.slot
+         \E n \in UsesStar(ev) : Has(T.monitor_index, n) /\ T.monitor_index[n] = ev.slot
     [] T.kind = "missing" ->
-         \E n \in ToSet(ev.uses) : Has(T.requested, n) /\ T.requested[n] = ev.slot
+         \E n \in UsesStar(ev) : Has(T.requested, n) /\ T.requested[n] = ev.slot
     [] OTHER -> TRUE
 
-\* C04 across events: the index maps in force when a function is emitted are the ones the preceding
-\* sort of the COMPLETE assignment graph determines: state slots = order of the derivatives, monitor slots = order
-\* of the assignments (T.full_order is the SortOrder event recorded in the same process; empty = not recorded)
+\* layout policy of this implementation (a NOTE, no property fixes it): state slots = order of the derivatives in
+\* the sort of the COMPLETE assignment graph recorded in the same process, monitor slots = that order
 DerivsInOrder == SelectSeq(T.full_order, LAMBDA n : Has(T.derivs, n))
 LayoutFromSortOk ==
   \/ T.full_order = <<>>
@@ -83,71 +137,83 @@ LayoutFromSortOk ==
      /\ Len(DerivsInOrder) = Cardinality(DOMAIN T.state_index)
      /\ (DOMAIN T.monitor_index = {} \/ \A i \in 1..Len(T.full_order) : Has(T.monitor_index, T.full_order[i]) /\ T.monitor_index[T.full_order[i]] = i - 1)
 
-\* C07: in a Rush-Larsen scheme the store of state X reads the linearisation d<X>_dt_linearized exactly when
-\* the scheme decided to use the exponential update for X; T.stiff is the set of states the caller asked for
-\* (generalized: every state), T.zero_slope the states whose rate does not depend on themselves
-SchemeChoiceOk(ev) ==
-  IF T.kind # "scheme" \/ ~T.check_choice THEN TRUE ELSE
-  \A d \in ToSet(ev.uses) :
-     (Has(T.derivs, d) /\ Has(T.state_index, T.derivs[d]) /\ T.state_index[T.derivs[d]] = ev.slot) =>
-        LET x == T.derivs[d]
-            wantRL == (T.all_stiff \/ x \in ToSet(T.stiff)) /\ x \notin ToSet(T.zero_slope)
-            usesLin == \E u \in ToSet(ev.uses) : u = T.lin[d]
-        IN wantRL = usesLin
+\* ---- C07: which update does the store of state X use? -------------------------------------------
+\* The exponential update is recognised by what it IS (an exponential of the step, reached through the store and
+\* the helpers it reads - the rate and the other model quantities are model names and are not followed), not by a name.
+SchemeJudged(ev) == T.kind = "scheme" /\ T.check_choice /\ Cardinality(DerivsOf(ev)) = 1
+                    /\ Has(T.state_index, T.derivs[Carried(ev)]) /\ T.state_index[T.derivs[Carried(ev)]] = ev.slot
+WantRL(ev) == LET x == T.derivs[Carried(ev)] IN (T.all_stiff \/ x \in ToSet(T.stiff)) /\ x \notin ToSet(T.zero_slope)
+UsesRL(ev) == CallsStar(ev) \cap {"exp", "expm1"} # {} \/ UsesStar(ev) \cap LinNames # {}
+SchemeChoiceOk(ev) == ~SchemeJudged(ev) \/ (WantRL(ev) = UsesRL(ev))
 
-\* C06: where the exponential update is used it sits behind the guard: the selection reads the linearisation and no
-\* other quantity of the model or of the call, every number in it is the delta the caller passed, and it is strict
-\* (|g| = delta takes the Euler branch); the exponential branch reads the linearisation, the other one the rate.
-\* (Only what the property fixes: HOW the comparison is spelled - abs(), two inequalities, a local holding the
-\* threshold - is left open; the values are the business of the numeric replay.)
-SchemeGuardOk(ev) ==
-  IF T.kind # "scheme" \/ ~T.check_choice \/ T.delta = "" THEN TRUE ELSE
-  \A d \in ToSet(ev.uses) :
-     (Has(T.derivs, d) /\ Has(T.state_index, T.derivs[d]) /\ T.state_index[T.derivs[d]] = ev.slot) =>
-        LET x == T.derivs[d]
-            wantRL == (T.all_stiff \/ x \in ToSet(T.stiff)) /\ x \notin ToSet(T.zero_slope)
-            g == ev.guard
-            \* names that carry a value of the model or of the call; a local that merely holds the threshold is none
-            ModelNames == DOMAIN T.state_index \cup DOMAIN T.parameter_index \cup DOMAIN T.derivs
-                          \cup {T.lin[k] : k \in DOMAIN T.lin} \cup ToSet(T.full_order) \cup {"dt", "t"}
-        IN wantRL => /\ g.present
-                     /\ T.lin[d] \in ToSet(g.cond_uses)
-                     /\ ToSet(g.cond_uses) \cap ModelNames = {T.lin[d]}
-                     /\ ToSet(g.consts) \subseteq {T.delta}
-                     /\ g.strict
-                     /\ T.lin[d] \in ToSet(g.then_uses)
-                     /\ d \in ToSet(g.else_uses)
+\* ---- C06: the guard ------------------------------------------------------------------------------
+\* Where the exponential update is used: there is a selection at all; and when the selection is the outermost one
+\* of the store and reads the linearisation by its name, it reads no other quantity of the model or of the call,
+\* every number in it is the delta the caller passed, and |g| = delta takes the Euler branch:
+\*    strict comparison(s)     -> the selected branch is the exponential one, the other one the rate
+\*    non-strict comparison(s) -> the other way round
+\* Any other spelling (negations, mixed comparisons, a selection inside a helper) is a note.
+GuardVerdict(ev) ==
+  IF ~(SchemeJudged(ev) /\ T.delta # "" /\ WantRL(ev) /\ UsesRL(ev)) THEN "ok"
+  ELSE LET d == Carried(ev)
+           g == ev.guard
+           lin == T.lin[d]
+       IN IF "where" \notin CallsStar(ev) THEN "fail"      \* unguarded exponential update
+          ELSE IF ~g.present \/ lin \notin ClU(ToSet(g.cond_uses)) THEN "note"
+          ELSE LET cu == ClU(ToSet(g.cond_uses))
+                   cc == ClC(ToSet(g.cond_uses), ToSet(g.consts))
+                   co == ClO(ToSet(g.cond_uses), ToSet(g.ops))
+                   tu == ClU(ToSet(g.then_uses))
+                   eu == ClU(ToSet(g.else_uses))
+                   strictForm == co # {} /\ co \subseteq {"Gt", "Lt"}
+                   looseForm == co # {} /\ co \subseteq {"GtE", "LtE"}
+               IN IF ~(strictForm \/ looseForm) THEN "note"
+                  ELSE IF /\ cu \cap (Protected \cup {"dt", "t"}) = {lin}
+                          /\ cc \subseteq {T.delta}
+                          /\ (strictForm => (lin \in tu /\ d \in eu /\ lin \notin eu))
+                          /\ (looseForm => (lin \in eu /\ d \in tu /\ lin \notin tu))
+                       THEN "ok" ELSE "fail"
+
+AllocSeen == \E i \in 1..(l - 1) : T.stmts[i].k = "alloc" /\ T.stmts[i].name # "shape"
 
 RuleFails(ev) ==
      (IF ~(Reads(ev) \subseteq defined) THEN {"use-before-def"} ELSE {})
   \cup (IF ~UnpackOk(ev) THEN {"unpack-slot"} ELSE {})
-  \cup (IF Binds(ev) \cap defined # {} THEN {"redefinition"} ELSE {})
-  \cup (IF ev.k = "store" /\ ~StoreOk(ev) THEN {"store-slot"} ELSE {})
+  \cup (IF Binds(ev) \cap defined \cap Protected # {} THEN {"redefinition"} ELSE {})
+  \cup (IF ev.k = "store" /\ StoreJudged(ev) /\ ~StoreOk(ev) THEN {"store-slot"} ELSE {})
   \cup (IF ev.k = "store" /\ ev.slot \in ToSet(stored) THEN {"store-twice"} ELSE {})
   \cup (IF ev.k = "store" /\ ~SchemeChoiceOk(ev) THEN {"scheme-choice"} ELSE {})
-  \cup (IF ev.k = "store" /\ SchemeChoiceOk(ev) /\ ~SchemeGuardOk(ev) THEN {"scheme-guard"} ELSE {})
-  \cup (IF ev.k = "store" /\ T.needs_alloc /\ "values" \notin defined THEN {"store-before-alloc"} ELSE {})
+  \cup (IF ev.k = "store" /\ SchemeChoiceOk(ev) /\ GuardVerdict(ev) = "fail" THEN {"scheme-guard"} ELSE {})
+  \cup (IF ev.k = "store" /\ T.needs_alloc /\ ~Has(ev, "name") /\ ~AllocSeen THEN {"store-before-alloc"} ELSE {})
   \cup (IF ev.k = "return" /\ T.expect_n >= 0 /\ ~(ToSet(stored) = 0..(T.expect_n - 1) /\ Len(stored) = T.expect_n) THEN {"lengths-stored"} ELSE {})
   \cup (IF ev.k = "return" /\ T.expect_n >= 0 /\ ev.nret >= 0 /\ ev.nret # T.expect_n THEN {"lengths-returned"} ELSE {})
-  \cup (IF ev.k = "return" /\ ~(\A i \in 1..Len(ev.rets) : ev.rets[i] = "_values_" \o ToString(i - 1)) THEN {"return-order"} ELSE {})
-  \cup (IF ev.k = "other" THEN {"unknown-statement"} ELSE {})
+
+RuleNotes(ev) ==
+     (IF ev.k = "store" /\ ~StoreJudged(ev) THEN {"store-not-judged"} ELSE {})
+  \cup (IF ev.k = "store" /\ SchemeChoiceOk(ev) /\ GuardVerdict(ev) = "note" THEN {"guard-spelling"} ELSE {})
   \cup (IF l = 1 /\ ~LayoutFromSortOk THEN {"layout-from-sort"} ELSE {})
 
 RECURSIVE SetToSeqF(_)
 SetToSeqF(S) == IF S = {} THEN <<>> ELSE LET x == CHOOSE x \in S : TRUE IN <<x>> \o SetToSeqF(S \ {x})
+Tagged(S, line) == LET s == SetToSeqF(S) IN [i \in 1..Len(s) |-> [line |-> line, rule |-> s[i]]]
 
 Step == /\ l <= Len(T.stmts)
-        /\ LET ev == Ev
-               f == RuleFails(ev) IN
-           /\ fails' = fails \o [i \in 1..Cardinality(f) |-> [line |-> l, rule |-> SetToSeqF(f)[i]]]
+        /\ LET ev == Ev IN
+           /\ fails' = fails \o Tagged(RuleFails(ev), l)
+           /\ notes' = notes \o Tagged(RuleNotes(ev), l)
            /\ defined' = defined \cup Binds(ev)
            /\ stored' = IF ev.k = "store" THEN Append(stored, ev.slot) ELSE stored
+           /\ env' = IF ev.k \in {"def", "alloc"} /\ IsHelper(ev.name)
+                     THEN (ev.name :> [uses |-> UsesStar(ev), consts |-> ClC(ToSet(ev.uses), ToSet(ev.consts)),
+                                       ops |-> ClO(ToSet(ev.uses), ToSet(ev.ops)), calls |-> CallsStar(ev)]) @@ env
+                     ELSE env
         /\ l' = l + 1 /\ tid' = tid
 Next == Step
 Spec == Init /\ [][Next]_vars
 
 Finished == l > Len(T.stmts)
-\* the rules as invariants of the trace specification (every observed state is checked)
-NoFailure == fails = <<>>
-Report == Finished => PrintT(ToJson([tid |-> tid, id |-> T.id, steps |-> l - 1, fails |-> fails]))
+\* the rules as an invariant of the trace specification (every observed state is checked)
+NoFailure == Interpretable => fails = <<>>
+Report == Finished => PrintT(ToJson([tid |-> tid, id |-> T.id, steps |-> l - 1, interpretable |-> Interpretable,
+                                     why |-> SetToSeqF(Whole(T)), fails |-> fails, notes |-> notes]))
 =============================================================================
